@@ -105,6 +105,9 @@ type Prop struct {
 	// OnDeath classifies a worker process that died while running a case
 	// (engine B child-process isolation); nil means machinery trouble.
 	OnDeath func(r *Result)
+	// Diff: the parent runs every case in two worker binaries (default build
+	// and the one named by VERIF_WORKER_PUREGO) and compares their transcripts.
+	Diff bool
 	// OnStderr lets a property turn what a worker printed on stderr (race
 	// reports) into outcomes of the runs of that worker.
 	OnStderr func(stderr string, results []*Result, probe func(string))
